@@ -3,7 +3,10 @@
 package table
 
 import (
+	dest "github.com/grafana/carbon-relay-ng/destination"
 	"github.com/grafana/carbon-relay-ng/matcher"
+	"github.com/grafana/carbon-relay-ng/route"
+	"github.com/grafana/carbon-relay-ng/stats"
 	m20 "github.com/metrics20/go-metrics20/carbon20"
 )
 
@@ -68,5 +71,49 @@ func VerifC03TableName() {
 	t.Dispatch(line)
 	want := !bl.Match(name) && r.m.Match(name)
 	verifAssert((len(r.got) == 1) == want, "table-filters-on-name-only")
+	verifCover("end")
+}
+
+// VerifC03TableDestName: the whole way from Table.Dispatch to a destination filter inside a real
+// send-all / send-first route: the filter decides on the metric name only, whatever white space separates
+// the fields of the received line (space or tab) and whatever the value and timestamp tokens are.
+// The destination is not connected (no spool): a line it accepts is counted by its conn_down_no_spool counter.
+func VerifC03TableDestName() {
+	t := verifNewTable(m20.NoneLegacy, m20.NoneM20, false)
+	dm := verifOptMatcher("dest")
+	d, err := dest.New("r", dm, "127.0.0.1:2103", "/tmp/verif-spool", false, false, 1e9, 1e9, 10, 100, 10, 1000, 10, 1e9, 1e6, 1e6)
+	if err != nil {
+		panic(err)
+	}
+	all, _ := matcher.New("", "", "", "", "", "")
+	var r route.Route
+	if verifBool("firstmatch") {
+		r, err = route.NewSendFirstMatch("r", all, []*dest.Destination{d})
+	} else {
+		r, err = route.NewSendAllMatch("r", all, []*dest.Destination{d})
+	}
+	if err != nil {
+		panic(err)
+	}
+	t.AddRoute(r)
+	verifSettle()
+	name := verifName(1 + verifChoice("namelen", 2))
+	sep1, sep2 := verifByte("sep1"), verifByte("sep2")
+	verifAssume(verifOr(sep1 == ' ', sep1 == '\t'))
+	verifAssume(verifOr(sep2 == ' ', sep2 == '\t'))
+	val, ts := verifTok("val", 1), verifTok("ts", 1)
+	verifAssume(verifAnd(val[0] >= '0', val[0] <= '9'))
+	verifAssume(verifAnd(ts[0] >= '0', ts[0] <= '9'))
+	line := append([]byte{}, name...)
+	line = append(line, sep1)
+	line = append(line, val...)
+	line = append(line, sep2)
+	line = append(line, ts...)
+	c := stats.Counter("dest=" + d.Key + ".unit=Metric.action=drop.reason=conn_down_no_spool")
+	before := c.Count()
+	t.Dispatch(line)
+	verifSettle()
+	want := dm.Match(name)
+	verifAssert((c.Count()-before == 1) == want && (c.Count()-before <= 1), "destination-filter-behind-the-table-decides-on-the-name-only")
 	verifCover("end")
 }
